@@ -197,7 +197,7 @@ func runC17(x *Exec) {
 			key string
 			e   kvEntry
 		}
-		written := map[int][]groupWrite{} // by group: every entry a member wrote while it belonged to the group
+		written := map[int][]groupWrite{}             // by group: every entry a member wrote while it belonged to the group
 		versions := map[string]kvState{}              // committed version name -> state
 		committedVals := map[string]map[string]bool{} // key -> set of "time|value" that were the entry of some committed version
 		tombTimes := map[string]map[int64]bool{}
